@@ -473,15 +473,17 @@ Proof.
     apply N.eqb_eq in Ec. subst c. reflexivity.
 Qed.
 
-Lemma sim_text cfg b s (cur alt : str) : sim cfg b s ->
-  match b_pws b with
-  | [] => if all_in (c_spaces cfg) cur then alt else cur
-  | _ :: _ => cur
-  end =
-  if negb (existsb (fun x => memS (s_name s x) (c_pw cfg)) (s_open s)) && all_in (c_spaces cfg) cur
+Lemma sim_text cfg b s (special : bool) (cur alt : str) : sim cfg b s ->
+  (if special then cur else
+   match b_pws b with
+   | [] => if all_in (c_spaces cfg) cur then alt else cur
+   | _ :: _ => cur
+   end) =
+  if negb special && negb (existsb (fun x => memS (s_name s x) (c_pw cfg)) (s_open s)) && all_in (c_spaces cfg) cur
   then alt else cur.
 Proof.
-  intros H. rewrite (sim_pws_s _ _ _ H), filter_existsb.
+  intros H. destruct special; [reflexivity|]. cbn [negb andb].
+  rewrite (sim_pws_s _ _ _ H), filter_existsb.
   destruct (existsb _ (s_open s)); reflexivity.
 Qed.
 
@@ -528,7 +530,7 @@ Proof.
   intros H. unfold end_data, s_flush. rewrite <- (sim_data _ _ _ H).
   destruct (b_data b) as [|c cs] eqn:Ed; [exact H|].
   destruct (sim_top _ _ _ H) as (top & rest & Est & Ecur).
-  rewrite (sim_text _ _ _ _ _ H), (sim_cls _ _ _ _ H).
+  cbv zeta. rewrite (sim_text _ _ _ _ _ _ H), (sim_cls _ _ _ _ H).
   set (text := if _ && _ then _ else _). set (cl := match cls with Some _ => _ | None => _ end).
   unfold alloc, object_was_parsed. cbn [b_cur b_st b_mre b_pay b_stack b_counter b_pws b_scs b_data].
   rewrite Ecur. cbn [hp]. unfold with_heap. cbn [nxt].
@@ -766,17 +768,31 @@ Qed.
 (* whitespace-only text outside whitespace-preserving elements collapses to one newline or one space *)
 Lemma ws_collapse : forall cfg s cls chunks,
   s_pending s = chunks -> chunks <> [] ->
+  (match cls with Some c => preformatted_cls c | None => false end) = false ->
   existsb (fun x => memS (s_name s x) (c_pw cfg)) (s_open s) = false ->
   all_in (c_spaces cfg) (concat (rev chunks)) = true ->
   exists c, s_nodes (s_flush cfg s cls) = s_nodes s ++
      [mksn (hd_error (s_open s)) (mkpl (if memN 10%N (concat (rev chunks)) then [10%N] else [32%N]) None [] c false)].
 Proof.
-  intros cfg s cls chunks Hp Hne Hex Hall. unfold s_flush. rewrite Hp.
-  destruct chunks as [|c cs]; [contradiction|]. rewrite Hex, Hall. cbn [negb andb s_nodes].
+  intros cfg s cls chunks Hp Hne Hsp Hex Hall. unfold s_flush. rewrite Hp.
+  destruct chunks as [|c cs]; [contradiction|]. cbv zeta. rewrite Hsp, Hex, Hall. cbn [negb andb s_nodes].
+  eexists. reflexivity.
+Qed.
+
+(* the content of a special string (comment, CDATA, doctype, declaration, processing instruction) is exactly
+   the data the builder sent *)
+Lemma special_string_kept : forall cfg s c chunks,
+  s_pending s = chunks -> chunks <> [] -> preformatted_cls c = true ->
+  exists k, s_nodes (s_flush cfg s (Some c)) = s_nodes s ++
+     [mksn (hd_error (s_open s)) (mkpl (concat (rev chunks)) None [] k false)].
+Proof.
+  intros cfg s c chunks Hp Hne Hsp. unfold s_flush. rewrite Hp.
+  destruct chunks as [|ch cs]; [contradiction|]. cbv zeta. rewrite Hsp. cbn [negb andb s_nodes].
   eexists. reflexivity.
 Qed.
 
 Print Assumptions build_refines_tree.
 Print Assumptions unknown_end_ignored.
 Print Assumptions ws_collapse.
+Print Assumptions special_string_kept.
 Print Assumptions build_refines.
